@@ -748,6 +748,7 @@ func checkC05(c *Ctx, r *Report) {
 	r.rule("C05.R2", "every schema type is decodable: members and alternatives tagged, tags unique, leaf kinds handled (exhaustive)", 190)
 	r.rule("C05.R3", "unsupported constructs return an error in both halves", 2)
 	r.rule("C05.R4", "decoder stores values of the right type (reflect Set assignability)", 3)
+	r.rule("C05.R8", "every recursive descent of the decoder starts at the offset where the header was parsed", 4)
 	r.rule("C05.R7", "INTEGER / ENUMERATED contents are decoded as two's complement (sibling of the encoder's signed minimal octets)", 2)
 	r.rule("C05.R6", "decoding depends on the bytes, the target type and the parameters only: no mutable package-level state on the decode path (memo tables keyed by reflect.Type identity excepted)", 6)
 	r.rule("C05.R5", "the decoder's header parser yields an offset within the input and a non-negative content length (post-conditions proved; shared with C16.R1)", 5)
@@ -781,6 +782,7 @@ func checkC05(c *Ctx, r *Report) {
 	c16ReflectSetRule(c, r, "C05.R4")
 	c16Posts(c, r, "C05.R5")
 	c05IntegerSigned(c, r, "C05.R7")
+	c05DescentOffsets(c, r, "C05.R8")
 	codecPurity(c, r, []*ssa.Function{c.fn("cdr/asn", "UnmarshalWithParams"), c.fn("cdr/asn", "Unmarshal")}, modPath+"/cdr/asn", "C05.R6", "decode")
 }
 
@@ -986,4 +988,134 @@ func hasFieldStore(a *ssa.Alloc, field int) bool {
 		}
 	}
 	return false
+}
+
+// ---- C05.R8: the decoder descends where it parsed ----
+//
+// ParseField parses a header with parseTagAndLength(bytes[L:]) and later hands
+// bytes[O:...] to a recursive ParseField, which parses that header again.  On
+// every path the recursion must start at the position the header was found
+// (O == L as linear forms over the same symbols): a descent that starts at the
+// header's *length* instead of its *position* works only while the two happen
+// to be equal (an explicit tag whose header is as long as the inner one) and
+// silently yields a wrong value otherwise.
+func c05DescentOffsets(c *Ctx, r *Report, rule string) {
+	pf := c.fn("cdr/asn", "ParseField")
+	ptl := c.fn("cdr/asn", "parseTagAndLength")
+	var bytesParam *ssa.Parameter
+	for _, p := range pf.Params {
+		if isByteSeq(p.Type()) {
+			bytesParam = p
+		}
+	}
+	if bytesParam == nil {
+		r.viol(rule, fnKey(pf)+"|anchor", c.rel(pf.Pos()), "ParseField has no byte-slice parameter")
+		return
+	}
+	e := newRelEngine(c, pf, nil)
+	lowOf := func(v ssa.Value) (ssa.Value, bool, bool) { // low bound value, isWholeInput, ok
+		if v == ssa.Value(bytesParam) {
+			return nil, true, true
+		}
+		if sl, ok := v.(*ssa.Slice); ok && sl.X == ssa.Value(bytesParam) {
+			return sl.Low, sl.Low == nil, true
+		}
+		return nil, false, false
+	}
+	type parse struct {
+		call *ssa.Call
+		low  poly
+	}
+	var parses []parse
+	eachInstr(pf, func(_ *ssa.BasicBlock, _ int, ins ssa.Instruction) {
+		call, ok := ins.(*ssa.Call)
+		if !ok || call.Call.StaticCallee() != ptl || len(call.Call.Args) == 0 {
+			return
+		}
+		lv, whole, ok := lowOf(call.Call.Args[0])
+		if !ok {
+			return
+		}
+		p := poly{}
+		if !whole {
+			p = e.fe.eval(lv)
+		}
+		parses = append(parses, parse{call, p})
+	})
+	n := 0
+	eachInstr(pf, func(_ *ssa.BasicBlock, _ int, ins ssa.Instruction) {
+		call, ok := ins.(*ssa.Call)
+		if !ok || call.Call.StaticCallee() != pf || len(call.Call.Args) < 2 {
+			return
+		}
+		lv, whole, ok := lowOf(call.Call.Args[1])
+		if !ok {
+			return
+		}
+		n++
+		key := fmt.Sprintf("%s|descent #%d", fnKey(pf), n)
+		governing := func(at *ssa.BasicBlock, before ssa.Instruction) *parse {
+			var best *parse
+			for i := range parses {
+				p := &parses[i]
+				if !(p.call.Block() == at || p.call.Block().Dominates(at)) {
+					continue
+				}
+				if before != nil && p.call.Block() == before.Block() && instrIndex(p.call) > instrIndex(before) {
+					continue
+				}
+				if best == nil || best.call.Block().Dominates(p.call.Block()) {
+					best = p
+				}
+			}
+			return best
+		}
+		// the common case: the very value the header was parsed at
+		if g := governing(call.Block(), call); g != nil || whole {
+			o := poly{}
+			if !whole {
+				o = e.fe.eval(lv)
+			}
+			if (g == nil && whole) || (g != nil && o.String() == g.low.String()) {
+				r.proven(rule, key, posOf(c, call), "the recursion starts at the offset where the header was parsed")
+				return
+			}
+		}
+		var leaves []phiLeaf
+		if whole {
+			leaves = []phiLeaf{{val: nil}}
+		} else {
+			leaves = leavesOf(lv)
+		}
+		bad := ""
+		for _, lf := range leaves {
+			o := poly{}
+			if lf.val != nil {
+				o = e.fe.eval(lf.val)
+			}
+			// the header parse that governs this path: the last one that dominates the
+			// point the value comes from
+			at := call.Block()
+			if lf.from != nil {
+				at = lf.from
+			}
+			best := governing(at, call)
+			if best == nil {
+				bad = "no header parse precedes the descent"
+				break
+			}
+			if o.String() != best.low.String() {
+				bad = fmt.Sprintf("on the path through %s the header was parsed at offset %s (%s) but the descent starts at offset %s", at.Comment, polyOrZero(best.low), posOf(c, best.call), polyOrZero(o))
+				break
+			}
+		}
+		r.check(bad == "", rule, key, posOf(c, call), "the recursion starts at the offset where the header was parsed, on every path", bad+": the nested value is read from the wrong position whenever the two offsets differ (e.g. an explicitly tagged CHOICE whose outer header is longer than the inner one) - a wrong value, no error")
+	})
+}
+
+func polyOrZero(p poly) string {
+	if s := p.String(); s != "" {
+		return s
+	}
+	return "0"
 }
